@@ -240,7 +240,11 @@ func roleArgKind(info *types.Info, cc *ast.CaseClause) string {
 	kind := "none"
 	ast.Inspect(cc, func(n ast.Node) bool {
 		as, ok := n.(*ast.AssignStmt)
-		if !ok || len(as.Lhs) != 1 || exprString(as.Lhs[0]) != "params" {
+		if !ok || len(as.Lhs) != 1 {
+			return true
+		}
+		// the argument list under construction: a local []jen.Code that is appended to
+		if t := info.TypeOf(as.Lhs[0]); t == nil || t.String() != "[]"+jenPath+".Code" {
 			return true
 		}
 		call, ok := ast.Unparen(as.Rhs[0]).(*ast.CallExpr)
@@ -248,16 +252,46 @@ func roleArgKind(info *types.Info, cc *ast.CaseClause) string {
 			kind = "other"
 			return true
 		}
+		if b, ok := calleeObj(info, call).(*types.Builtin); !ok || b.Name() != "append" || exprString(call.Args[0]) != exprString(as.Lhs[0]) {
+			kind = "other"
+			return true
+		}
 		a := exprString(call.Args[1])
+		// <X>.Code.Clone() where X is ctx.Context[<arg>.Type.String] — directly or through the comma-ok local of that lookup
+		isCtxLookup := func(e ast.Expr) bool {
+			ix, ok := ast.Unparen(e).(*ast.IndexExpr)
+			return ok && exprString(ix.X) == "ctx.Context" && strings.HasSuffix(exprString(ix.Index), ".Type.String")
+		}
+		ctxArg := false
+		if strings.HasSuffix(a, ".Code.Clone()") {
+			if c1, ok := ast.Unparen(call.Args[1]).(*ast.CallExpr); ok {
+				if s1, ok := ast.Unparen(c1.Fun).(*ast.SelectorExpr); ok {
+					if s2, ok := ast.Unparen(s1.X).(*ast.SelectorExpr); ok {
+						x := ast.Unparen(s2.X)
+						if isCtxLookup(x) {
+							ctxArg = true
+						} else if id0, ok := x.(*ast.Ident); ok {
+							obj := info.ObjectOf(id0)
+							ast.Inspect(cc, func(m ast.Node) bool {
+								if a2, ok := m.(*ast.AssignStmt); ok && len(a2.Lhs) == 2 && len(a2.Rhs) == 1 {
+									if l0, ok := a2.Lhs[0].(*ast.Ident); ok && info.ObjectOf(l0) == obj && isCtxLookup(a2.Rhs[0]) {
+										ctxArg = true
+									}
+								}
+								return true
+							})
+						}
+					}
+				}
+			}
+		}
 		switch {
 		case a == "jen.Id(xtype.ThisVar)":
 			kind = "receiver"
 		case a == "sourceID.Code":
 			kind = "source"
-		case strings.Contains(a, "ctx.Context[arg.Type.String]") && strings.HasSuffix(a, ".Code.Clone()"):
+		case ctxArg:
 			kind = "context"
-		case a == "id.Code.Clone()":
-			kind = "context" // `if id, ok := ctx.Context[arg.Type.String]; ok {…}`
 		default:
 			kind = "other:" + a
 		}
